@@ -141,6 +141,18 @@ func (tl *tapLog) events() []tapEv {
 	return append([]tapEv(nil), tl.evs...)
 }
 
+// snapshot returns the number of events per point, and their total, as of one instant (conditions over several
+// counters are evaluated on one snapshot, never on counters read one after the other while goroutines run).
+func (tl *tapLog) snapshot() (map[string]int, int) {
+	tl.mu.Lock()
+	defer tl.mu.Unlock()
+	m := map[string]int{}
+	for _, e := range tl.evs {
+		m[e.Point]++
+	}
+	return m, len(tl.evs)
+}
+
 func (tl *tapLog) count(point string) int {
 	tl.mu.Lock()
 	defer tl.mu.Unlock()
